@@ -1,6 +1,7 @@
 From Coq Require Import List Bool.
 Import ListNotations.
 Require Import MV.Spec.Types MV.Model.Validate MV.Gen.TypeTables.
+Require Export MV.Model.CodeTables.
 
 Lemma strict_table_matches : forall d a, gen_strict d a = Some (strict_spec d a).
 Proof. intros d a; destruct d, a; vm_compute; reflexivity. Qed.
@@ -14,9 +15,6 @@ Proof. intros a; destruct a; vm_compute; reflexivity. Qed.
 Lemma no_extra_dtypes : gen_extra_dtypes = 0.
 Proof. vm_compute; reflexivity. Qed.
 
-(* the code's relations as total functions (a table error counts as "incompatible") *)
-Definition code_strict d a := match gen_strict d a with Some b => b | None => false end.
-Definition code_lenient d a := match gen_lenient d a with Some b => b | None => false end.
 
 Lemma code_strict_eq : forall d a, code_strict d a = strict_spec d a.
 Proof. intros; unfold code_strict; rewrite strict_table_matches; reflexivity. Qed.
